@@ -257,6 +257,11 @@ def check_roundtrip(bad, sh, vecs, back, q):
         for v in sh.vars:
             for i in range(v.size):
                 scale = max(1.0, v.laws[i].std) if v.rnd else 1.0
+                degenerate = v.lb[i] is not None and v.ub[i] is not None and v.lb[i] == v.ub[i]
+                if degenerate and not q["minus_lb"] and not (v.rnd and q["use_dist"]):
+                    # coinciding bounds: the scaling x/(ub-lb) is not invertible (C02: gradient scaling is 0)
+                    j += 1
+                    continue
                 if not D.close(b2[r, j], vec[j], B30 * 16, scale):
                     which = "random" if v.rnd else "deterministic"
                     bad.append((f"roundtrip-{which}", f"unnormalize(normalize(x)) component {j} ({v.name}[{i}]): {float(b2[r, j])!r} != {vec[j]!r} (minus_lb={q['minus_lb']}, use_dist={q['use_dist']})"))
